@@ -1101,6 +1101,17 @@ impl Api for Server {
     txs: Vec<String>,
     _options: Option<SimulateRawTransactionOptions>,
   ) -> Result<SimulateRawTransactionResult, jsonrpc_core::Error> {
+    #[cfg(ordinals_ord_verif)]
+    {
+      if crate::VERIF_SIMULATE_OVERRIDE.load(std::sync::atomic::Ordering::SeqCst) {
+        return Ok(SimulateRawTransactionResult {
+          balance_change: SignedAmount::from_sat(
+            crate::VERIF_SIMULATE_BALANCE_CHANGE.load(std::sync::atomic::Ordering::SeqCst),
+          ),
+        });
+      }
+    }
+
     let mut balance_change: i64 = 0;
 
     for tx in txs.into_iter().map(parse_hex_tx) {
